@@ -8,7 +8,7 @@ loop exits nothing is computable, ongoing or unfetched. The liveness clauses (pr
 rounds, all tasks completed at exit) hold only under FIFO delivery on the pinned tree
 (known finding C03-last-output-overtakes) and are checked by the watchdog oracle of the check.
 -/
-import EkwVerif.Lemmas.CtrlFinal
+import EkwVerif.Lemmas.SchedAll
 
 namespace EkwVerif.Ctrl
 
@@ -37,6 +37,12 @@ theorem c03_no_crash (f : Sem) (j : Job) (cl : Cluster) (wf : WF j cl) (s : Sys)
   have := hF.err_phase.mpr hp
   simp [herr] at this
 
+theorem aux_done_ran_once (f : Sem) (j : Job) (cl : Cluster) (wf : WF j cl) (s : Sys) (hr : Reachable f j cl s)
+    (t : Task) (hd : s.ctl.doneC t = true) : s.env.ran t = true ∧ s.env.dispatchedE t = 1 := by
+  have h := invAll_reachable f j cl wf s hr
+  have hran := h.h2.done_ran t hd
+  exact ⟨hran, by rw [h.h1.disp_eq]; exact (h.h2.ran_disp t hran).1⟩
+
 /-- **Shutdown exactly once, at the end** (the `finally` of `impl.run`). -/
 theorem c03_shutdown_once (f : Sem) (j : Job) (cl : Cluster) (s : Sys) (hr : Reachable f j cl s) :
     s.shutdowns = (if s.phase = .finished ∨ s.phase = .crashed then 1 else 0) :=
@@ -64,5 +70,27 @@ run once its inputs arrive) or it has run and its completion notice is on its wa
 theorem c03_ongoing_is_real (f : Sem) (j : Job) (cl : Cluster) (wf : WF j cl) (s : Sys) (hr : Reachable f j cl s)
     (w : Worker) (t : Task) (ho : (w, t) ∈ s.ctl.ongoing) : (w, t) ∈ s.env.queued ∨ s.env.ran t = true :=
   (invAll_reachable f j cl wf s hr).h2.flight_queued_or_ran w t (Or.inl ho)
+
+/-! ### the scheduler's own bookkeeping (extended system, `Model/Sched.lean`) -/
+
+/-- **The assignment heuristics never hit a missing dictionary key**, for ANY event order: no
+`KeyError` on `worker2task_distance[worker]` (in `_assignment_heuristic` and in `plan`'s
+`update_worker2task_distance`), on `worker2task_overhead[w][t]`, or in `worker2task_values.remove`;
+and the base controller does not crash either. -/
+theorem c03_sched_no_crash (f : Sem) (j : Job) (cl : Cluster) (cm : Comps) (wf : WF j cl) (wfc : WFC j cm) (x : SysX)
+    (hr : ReachableX f j cl cm x) : x.sch.schErr = none ∧ x.sys.err = none := by
+  have h := invX_reachable f j cl cm wf wfc x hr
+  exact ⟨h.hS.no_schErr, (c03_no_crash f j cl wf x.sys (sS1_reachableX_base f j cl cm x hr)).1⟩
+
+/-- **All tasks completed when the loop exits — under FIFO delivery** (events reach the controller
+in production order). Under any-order delivery this is false on the pinned tree (known finding
+C03-last-output-overtakes), hence the `_partial` suffix. -/
+theorem c03_done_partial (f : Sem) (j : Job) (cl : Cluster) (cm : Comps) (wf : WF j cl) (x : SysX)
+    (hr : ReachableFifo f j cl cm x) (hfin : x.sys.phase = .finished) :
+    ∀ t, t < j.tasks.length → x.sys.ctl.doneC t = true ∧ x.sys.env.ran t = true ∧ x.sys.env.dispatchedE t = 1 := by
+  intro t ht
+  have hd := sF_done f j cl cm x hr wf hfin t ht
+  have hR := sF_reachable_base f j cl cm x hr
+  exact ⟨hd, aux_done_ran_once f j cl wf x.sys hR t hd⟩
 
 end EkwVerif.Ctrl
